@@ -2,6 +2,7 @@ package format
 
 import (
 	"fmt"
+	"math"
 	"strconv"
 	"strings"
 
@@ -79,6 +80,23 @@ func quoteAlias(alias pgsql.Identifier) string {
 	return "\"" + strings.ReplaceAll(name, "\"", "\"\"") + "\""
 }
 
+// formatFloat renders a floating point value as a numeric constant. The values that have no numeric spelling are
+// written the way PostgreSQL reads them back when cast to a float type: as the quoted words NaN, Infinity and -Infinity.
+func formatFloat(value float64) string {
+	switch {
+	case math.IsNaN(value):
+		return "'NaN'"
+
+	case math.IsInf(value, 1):
+		return "'Infinity'"
+
+	case math.IsInf(value, -1):
+		return "'-Infinity'"
+	}
+
+	return strconv.FormatFloat(value, 'f', -1, 64)
+}
+
 func formatSlice[T any, TS []T](builder *OutputBuilder, slice TS, dataType pgsql.DataType) error {
 	builder.Write("array [")
 
@@ -150,10 +168,10 @@ func formatValue(builder *OutputBuilder, value any) error {
 		builder.Write(strconv.FormatBool(typedValue))
 
 	case float32:
-		builder.Write(strconv.FormatFloat(float64(typedValue), 'f', -1, 64))
+		builder.Write(formatFloat(float64(typedValue)))
 
 	case float64:
-		builder.Write(strconv.FormatFloat(typedValue, 'f', -1, 64))
+		builder.Write(formatFloat(typedValue))
 
 	default:
 		return fmt.Errorf("unsupported literal type: %T", value)
